@@ -59,7 +59,7 @@ def run(pid, tier, replay=None):
             print("REPLAY-MISMATCH", l[:400])
         return 1 if bad else 0
     if pid == "C09":
-        runs = [("exh", 1 if tier == "quick" else 2, 0, None), ("sim", 12, 4, 15 if tier == "quick" else 600)]
+        runs = [("exh", 1, 0, None), ("sim", 12, 4, 15 if tier == "quick" else 400)]
     else:
         runs = [("exh", 2 if tier == "quick" or pid == "C10" else 3, 0, None), ("sim", 14, 5, 40 if tier == "quick" else 1500)]
     states = trans = ncases = 0
@@ -72,7 +72,7 @@ def run(pid, tier, replay=None):
             modes = P["modes"]
             if pid == "C09" and tier == "quick" and not sim:
                 modes = '"standard"'     # quick: all form assignments in one mode; the simulated cases draw random modes
-            fh.write(CFG % (maxf, exportmin, P["forms"], "TRUE" if sim else "FALSE", 30 if tier == "quick" else 130, modes))
+            fh.write(CFG % (maxf, exportmin, P["forms"], "TRUE" if sim else "FALSE", 30 if tier == "quick" else 700, modes))
         casefile = os.path.join(wd, "cases_%s.jsonl" % name)
         n = 0
         seen = set()
